@@ -73,6 +73,19 @@ CHECKS = {
    text="spec/Convert.tla: CollapseTimeframe as coded (Option accumulator, counter) against the aggregate definition on every stream of 6 candles (periods 1..3), disjoint batch form = streaming outputs, sliding batch form; RenkoOutput's next/size_hint/count/nth/last for every (len, pos, n). TLC-emitted behaviours replayed on CollapseTimeframe::next/over and Sequence::collapse_timeframe. Trace_Convert keeps Renko's brick bounds in exact arithmetic from the public output and checks every recorded call: bricks iff the boundary is reached (near-boundary steps exempt from the which-side claim only), count = floor of the exact quotient and >= 1, bricks bit-contiguous, relative size b, one direction, total volume = consumed; prices are aimed exactly at / one ulp around the boundaries, with multi-brick jumps and reversals; periods up to 513 for CollapseTimeframe. HeikinAshi's recursion and valid-in => valid-out are checked by Trace_Num.",
    design_ref="DESIGN.md 5/C17",
    note="Renko's private next_block_upper/lower are read through Serialize only to aim inputs; verdicts use public outputs."),
+
+ "C15": dict(
+   technique="TLA+ relational trace validation: related runs of the real moving averages recorded side by side, the algebraic laws checked by TLC in exact fixed point; impulse responses against exact rational weight profiles for every length",
+   category="model_checking",
+   text="spec/Trace_Laws.tla states affine equivariance (any a incl. negative, any b), reproduction of constants, range containment for the non-negative kinds, superposition for the linear kinds, and the documented weight profile as exact rationals (SMA, WMA, SWMA, TRIMA, LinReg, Conv = its weight vector incl. zero weights at either end) or as the exact recurrence (EMA, DMA, TMA, DEMA, TEMA, RMA, WSMA). The harness runs the 15 MA kinds + Conv + VWMA in related instances on float streams and logs outputs; TLC checks every step within the summed allowances. Impulse responses are recorded for lengths 1..12,31..33,63,64,126..128,253,254 (quick) / all 1..254 (thorough).",
+   design_ref="DESIGN.md 5/C15",
+   note="Laws are relations between executions, so they need no evaluation of the average itself and are independent of C02/C03."),
+ "C08": dict(
+   technique="TLA+ metamorphic trace validation: constancy under the construction value and equality of later outputs for streams with k extra leading copies, checked by TLC in exact fixed point",
+   category="model_checking",
+   text="spec/Trace_Prefix.tla: an instance built from v and fed v k times (k in {1,2,n-1,n,n+1,3n}) returns a constant output -- bit-equal for selections/signals/counters, within the rounding allowance WITHOUT drift term for arithmetic outputs (squared domain for StDev) -- and then produces the same later outputs as an instance without the extra copies. Recorded for 42 method subjects (all lengths classes, special values 0, +-2^39, 2^-19, negative, flat and zero-volume candles) and for the indicators with every MA kind.",
+   design_ref="DESIGN.md 5/C08",
+   note="Exempt as the property states: windowless Integral/ADI (and indicators configured with them), CollapseTimeframe, Renko volume. Ratio outputs (CCI, ROC, TSI) are compared on streams without exactly repeated values."),
 }
 
 NOT_YET = {
